@@ -525,6 +525,8 @@ impl Property for C19Prop {
             (format!("{PRELUDE}(1, {ex}) == (1, {ey})"), equal, "inside-tuple"),
             (format!("{PRELUDE}struct{{k := {ex}}} == struct{{k := {ey}}}"), equal, "inside-struct"),
             (format!("{PRELUDE}cmp := (l: any, r: any) -> any {{ return (l == r, l != r, r == l); }}; cmp({ex}, {ey})"), equal, "runtime-triple"),
+            (format!("{PRELUDE}neg := (l: any, r: any) -> any {{ return (!(l != r), !(l == r), !(!(l == r))); }}; neg({ex}, {ey})"), equal, "runtime-triple"),
+            (format!("{PRELUDE}(!(({ex}) != ({ey})), !(({ex}) == ({ey})), !(!(({ey}) == ({ex}))))"), equal, "runtime-triple"),
         ];
         for (program, want, how) in checks {
             stats.eval();
